@@ -324,6 +324,22 @@ static Plan gen_C05(uint64_t seed, Rng &r, uint64_t index) {
         p.tail_ms = 100;
         return p;
     }
+    if (r.chance(0.02)) { // one interface holds a mapper while another is re-created again and again; each new instance is asked by a different station first
+        p.family = 8;
+        p.nodes.resize(1);
+        p.nodes.push_back(rnd_node(r, {GLUE_BARE}));
+        for (auto &n : p.nodes) n.glue = GLUE_BARE;
+        { Op o = mk(OP_DISCOVER, 5, {0, -1, 0, rnd_gen(r), rnd_seq(r), 2, 0, -1}); o.only = 0; p.ops.push_back(o); }
+        int64_t K = r.pickl({63, 64, 65, 127, 128, 254, 255, 256, 257, 300});
+        for (int64_t k = 0; k < K; k++) {
+            p.ops.push_back(mk(OP_ATTR, (uint32_t)r.range(1, 3), {1, 0, 0x80000, 0}));
+            Op o = mk(OP_DISCOVER, 1, {1 + (int64_t)r.below(3), -1, (int64_t)r.below(2), rnd_gen(r), rnd_seq(r), 2, 0, -1}); o.only = 1; p.ops.push_back(o);
+        }
+        { Op o = mk(OP_DISCOVER, 5, {0, -1, 0, rnd_gen(r), rnd_seq(r), 2, 0, -1}); o.only = 0; p.ops.push_back(o); }
+        { Op o = mk(OP_DISCOVER, 5, {2, -1, 0, rnd_gen(r), rnd_seq(r), 2, 0, -1}); o.only = 0; p.ops.push_back(o); }
+        p.tail_ms = 100;
+        return p;
+    }
     int nst = (int)r.range(3, 5);
     int nops = (int)r.range(3, 45);
     bool platform_faults = r.chance(0.25);
@@ -599,6 +615,22 @@ static Plan gen_C10(uint64_t seed, Rng &r) {
         p.tail_ms = 600;
         return p;
     }
+    if (r.chance(0.02)) { // A sits on a 32-64 KiB link and is ordered to send a very long train with long pauses (minutes of emission)
+        p.family = 6;
+        p.nodes.resize(2);
+        int A = (int)r.below(2), B = 1 - A;
+        p.nodes[A].mtu = (uint32_t)r.pickl({32768, 65535, 65536}); p.nodes[A].proc_us = 0; p.nodes[B].proc_us = 0;
+        if (p.nodes[B].mtu < 1500) p.nodes[B].mtu = 1500;
+        size_t cnt = (size_t)r.pickl({1176, 1177, 1178, 1300, 2000});
+        Op e = mk(OP_EMIT, 30, {mapper, -1, A, rnd_seq(r), -1, 0});
+        Mac shared = World(p).station_mac(5);
+        e.blob = rnd_descs(r, cnt, &shared, &nm[B]); // one spoofed source: the peer records a single observation, the wire carries them all
+        for (size_t d = 0; d < cnt; d++) e.blob[d * 14 + 1] = (uint8_t)r.pickl({255, 255, 255, 254, 200});
+        p.ops.push_back(e);
+        p.ops.push_back(mk(OP_QUERY, 1000, {mapper, -1, B, rnd_seq(r), 3}));
+        p.tail_ms = 500;
+        return p;
+    }
     if (r.chance(0.04)) { // a third interface of the host is re-created (fresh context pointer, first frame) 15..200 times between A's emission and B's Query
         p.family = 5;
         p.nodes.resize(2);
@@ -733,7 +765,12 @@ static Plan gen_C11(uint64_t seed, Rng &r) {
             o.blob = {(uint8_t)r.below(p.nodes.size())};
             if (r.chance(0.07)) { o.a[5] = 3; o.blob.push_back((uint8_t)r.below(5)); } // own address straddling two entries: not an acknowledgement
             if (r.chance(0.05)) o.a[5] = 0;
-            if (r.chance(0.05)) { o.f.push_back({F_PAD, (int64_t)n.mtu + r.pickl({0, 0, -1, -2, -3}), 0x11}); o.f.push_back({F_COUNT, r.pickl({0xFFFF, (int64_t)(n.mtu - 36) / 6 + 1, (int64_t)(n.mtu - 36) / 6}), 0}); o.f.push_back({F_TAILMAC, r.range(1, 6), 0}); }
+            if (r.chance(huge ? 0.5 : 0.05)) { // the frame is cut in the middle of an entry that begins with our address: the bytes that fit are ours, the count claims more than the frame holds
+                int64_t len = (int64_t)n.mtu + r.pickl({0, 0, -1, -2, -3, -4, -5, -6, -7}), k = (len - 36) % 6;
+                if (k <= 0 || r.chance(0.2)) k = r.range(1, 6);
+                o.f.push_back({F_PAD, len, 0x11}); o.f.push_back({F_COUNT, r.pickl({0xFFFF, (int64_t)(n.mtu - 36) / 6 + 1, (int64_t)(n.mtu - 36) / 6}), 0}); o.f.push_back({F_TAILMAC, k, 0});
+                if (r.chance(0.6)) o.a[7] = -1; // and it is nowhere else in the list
+            }
             p.ops.push_back(o);
         } else if (x < 9) p.ops.push_back(mk(OP_RESET, rnd_dt(r), {mapper, -1, r.chance(0.8) ? 0 : 1, r.chance(0.5) ? 1 : 0, 0, 0}));
         else if (x < 10) p.ops.push_back(mk(OP_HELLO, rnd_dt(r), {5, rnd_gen(r), 0, 1, 0, 0}));
@@ -977,7 +1014,7 @@ static Plan gen_C15(uint64_t seed, Rng &r, uint64_t index) {
             p.ops.push_back(mk(OP_A_SESS, 0, {(int64_t)r.below(8)}));
             continue;
         }
-        if (x < 6) p.ops.push_back(mk(OP_A_SESS, 0, {(int64_t)r.below(8)}));
+        if (x < 6) { Op o = mk(OP_A_SESS, 0, {(int64_t)r.below(8)}); if (r.chance(0.05)) { Fault f; f.kind = F_ALLOCFAIL; f.a = 1; f.b = 99; o.f.push_back(f); } p.ops.push_back(o); } // the life-cycle must not depend on memory being available
         else if (x < 7 && r.chance(0.3)) p.ops.push_back(mk(OP_A_REINIT, 0, {})); // a second, third, ... automaton created later in the life of the process
         else if (x < 9) p.ops.push_back(mk(OP_A_ADV, 0, {r.chance(0.85) ? 1000 * r.pickl({0, 0, 1, 1, 2, 3, 10}) : (r.chance(0.5) ? 1000 * big_jump(r) : 1000 * r.pickl({59, 60, 61, 119, 120, 121, 3599, 3600, 3601, 86399, 86400, 86401, 100, 1000}))}));
         else p.ops.push_back(mk(OP_A_SETSESS, 0, {(int64_t)r.below(4), r.chance(0.85) ? r.pickl({0, 1, 2, 10}) : (r.chance(0.5) ? big_jump(r) : r.pickl({59, 60, 61, 120, 3600, 86400}))}));
@@ -1090,6 +1127,27 @@ static Plan gen_C19(uint64_t seed, Rng &r, const std::string &tier) {
     NodeCfg n = rnd_node(r, {GLUE_BARE, GLUE_LEGACY, GLUE_DARWIN});
     p.nodes.push_back(n);
     p.family = (int)r.below(3);
+    if (r.chance(0.03)) { // another interface of the host is re-created 200..300 times (fresh context pointer, first frame each time) while this one holds observations and a cached icon
+        p.family = 7;
+        p.nodes.resize(1);
+        p.nodes.push_back(rnd_node(r, {GLUE_BARE}));
+        for (auto &nd : p.nodes) nd.glue = GLUE_BARE;
+        auto on = [](Op o, int node) { o.only = node; return o; };
+        p.ops.clear();
+        p.ops.push_back(on(mk(OP_DISCOVER, 5, {0, -1, 0, rnd_gen(r), rnd_seq(r), 2, 0, -1}), 0));
+        p.ops.push_back(mk(OP_FLOOD, 5, {r.range(1, 40), 70000, 0, 0, 0}));
+        p.ops.push_back(on(mk(OP_QLT, 5, {0, -1, 0, rnd_seq(r), 0x0E, 0, 0}), 0));
+        int64_t K = r.pickl({127, 128, 254, 255, 256, 257, 300});
+        for (int64_t k = 0; k < K; k++) {
+            p.ops.push_back(on(mk(OP_ATTR, (uint32_t)r.range(1, 3), {1, 0, 0x80000, 0}), 1));
+            p.ops.push_back(on(mk(OP_DISCOVER, 1, {1, -1, 0, rnd_gen(r), rnd_seq(r), 2, 0, -1}), 1));
+        }
+        p.ops.push_back(mk(OP_FLOOD, 5, {r.range(1, 5), 71000, 0, 0, 0}));
+        p.ops.push_back(on(mk(OP_QUERY, 5, {0, -1, 0, rnd_seq(r), 3}), 0));
+        p.ops.push_back(on(mk(OP_RESET, 5, {0, -1, 0, 0, 0, 0}), 0));
+        p.tail_ms = 100;
+        return p;
+    }
     if (p.family != 0 && r.chance(0.35)) { int extra = (int)r.range(1, 3); for (int i = 0; i < extra; i++) p.nodes.push_back(rnd_node(r, {GLUE_BARE, GLUE_LEGACY})); } // several interface contexts in one process
     int mapper = 0;
     p.ops.push_back(mk(OP_DISCOVER, 5, {mapper, -1, 0, rnd_gen(r), rnd_seq(r), 0, 0, 0}));
